@@ -215,3 +215,27 @@ impl ApplySubstitution for Environment {
         Ok(())
     }
 }
+
+// verification hook (property C06/C07): every identifier of the environment with kind and canonical type
+#[cfg(feature = "verif")]
+impl Environment {
+    /// entries `(name, kind, type text)`, sorted by name (innermost binding wins)
+    pub(crate) fn verif_c06_entries(&self) -> Vec<(String, &'static str, String)> {
+        let mut names: Vec<&Identifier> = self.identifiers.keys().collect();
+        names.sort();
+        names.dedup();
+        names
+            .into_iter()
+            .map(|n| {
+                let kind = self.identifiers.get(n.as_str()).unwrap();
+                let k = match kind {
+                    IdentifierKind::Normal(_, _, true) => "unit",
+                    IdentifierKind::Normal(_, _, false) => "var",
+                    IdentifierKind::Function(..) => "fn",
+                    IdentifierKind::Predefined(..) => "predefined",
+                };
+                (n.to_string(), k, kind.get_type().pretty_print().to_string())
+            })
+            .collect()
+    }
+}
